@@ -45,6 +45,14 @@ func TestWriteCorpus(t *testing.T) {
 	d.Actions = []ActionDef{{Code: 59, Action: "octave_up"}}
 	write("C04", "octave-11-int8-wrap", "regression: int(d.octave*12) wrapped in int8 at octave 11 (fixed: 2a411be)", KeyCase{D: d, Steps: append(tap(32), tap(30)...), NoLogs: true})
 
+	// C04: the transposition sum in 64 bits
+	d = simple("off")
+	d.Octave = 1 << 62
+	write("C04", "octave-2e62-int64-wrap", "regression: 12*octave wrapped in 64 bits for a configured default octave of 2^62, the key sounded its base note (fixed: f34b129)", KeyCase{D: d, Steps: tap(30), NoLogs: true})
+	d = simple("off")
+	d.Octave, d.Semitone = 700000000000000000, -12*700000000000000000+3
+	write("C04", "huge-octave-cancelled-by-semitone", "octave and semitone huge and cancelling: the pitch is base+3 and has to sound (guards the repair f34b129 against saturating too early)", KeyCase{D: d, Steps: tap(30), NoLogs: true})
+
 	// C01: mapping switched while a key-emulating axis is deflected
 	d = simple("off")
 	d.Actions = []ActionDef{{Code: 59, Action: "mapping_up"}}
